@@ -477,6 +477,6 @@ pub fn property() -> Property {
         rule: "random directed/undirected multigraphs with loops (0..=10 nodes quick; DAG, cycle, forest, multi-component, bipartite shapes) in Graph, StableGraph/MatrixGraph with vacancies, GraphMap, Csr, adj::List as the trait bounds allow; every listed function compared with Warshall closure / mutual-reachability classes / forest edge count / propagation 2-colouring; DfsSpace and TarjanScc reused across calls; non-trivial = >=2 SCCs with one of size >=2 (directed) or >=2 components (undirected); distinct by case fingerprint",
         assumptions: &["is_bipartite_undirected and toposort/is_cyclic_directed are exercised only on undirected resp. directed graphs (their domain)"],
         both_profiles: false,
-        subs: vec![sub("connectivity/all", 200_000, 5_000_000, strategy, run)],
+        subs: vec![sub("connectivity/all", 4_000_000, 60_000_000, strategy, run)],
     }
 }
